@@ -711,6 +711,10 @@ func (i *Interpreter) ProcessDeliver() error {
 	} else if i.ctx.BackendResponse != nil {
 		i.ctx.Response = i.ctx.BackendResponse.Clone()
 	}
+	if i.ctx.Response == nil {
+		// e.g. return(deliver_stale) in vcl_miss without any stale object
+		return exception.Runtime(nil, "No response object to deliver in DELIVER")
+	}
 
 	// Add Fastly related server info but values are falco's one.
 	// Note that these headers could be removed in vcl_deliver subroutine
